@@ -210,7 +210,50 @@ func (cx *Ctx) buildFuncUnitOnce(fn *ssa.Function, fc *FuncContract, blacklist m
 	if fc.HasAssigns {
 		fr.frameObligations(st, out, fc)
 	}
+	u.checkPendingAuto()
 	return u, nil
+}
+
+// checkPendingAuto decides the inferred loop-frame candidates of this build concurrently; the ones that do not
+// discharge quickly are dropped from the obligations and reported in autoFailed (the unit is then rebuilt without them).
+func (u *Unit) checkPendingAuto() {
+	if len(u.pendingAuto) == 0 {
+		return
+	}
+	failed := make([]bool, len(u.pendingAuto))
+	var wg sync.WaitGroup
+	sem := make(chan struct{}, 16)
+	for i, pa := range u.pendingAuto {
+		wg.Add(1)
+		sem <- struct{}{}
+		go func(i int, o *Obl) {
+			defer wg.Done()
+			defer func() { <-sem }()
+			failed[i] = !u.quickCheck(o)
+		}(i, pa.o)
+	}
+	wg.Wait()
+	drop := map[*Obl]bool{}
+	seen := map[string]bool{}
+	for i, pa := range u.pendingAuto {
+		if failed[i] {
+			drop[pa.o] = true
+			if !seen[pa.key] {
+				seen[pa.key] = true
+				u.autoFailed = append(u.autoFailed, pa.key)
+			}
+		}
+	}
+	if len(drop) > 0 {
+		kept := u.obls[:0]
+		for _, o := range u.obls {
+			if !drop[o] {
+				kept = append(kept, o)
+			}
+		}
+		u.obls = kept
+	}
+	u.pendingAuto = nil
 }
 
 func (fr *Frame) havocParam(st *State, t types.Type, name string) Val {
